@@ -238,11 +238,15 @@ func RecoverLegacyRawTransaction(ctx context.Context, rawTx ethtypes.HexBytes0xP
 		return nil, nil, i18n.NewError(ctx, signermsgs.MsgInvalidLegacyTransaction, err)
 	}
 
-	if decoded == nil || len(decoded.(rlp.List)) < 9 {
+	rlpList, isList := decoded.(rlp.List)
+	if !isList || len(rlpList) < 9 {
 		log.L(ctx).Errorf("Invalid legacy transaction data '%s': EOF", rawTx)
 		return nil, nil, i18n.NewError(ctx, signermsgs.MsgInvalidLegacyTransaction, "EOF")
 	}
-	rlpList := decoded.(rlp.List)
+	if !validTxScalars(rlpList, []int{0, 1, 2, 4, 6}, 3, []int{5, 7, 8}) {
+		log.L(ctx).Errorf("Invalid legacy transaction data '%s': non-canonical fields", rawTx)
+		return nil, nil, i18n.NewError(ctx, signermsgs.MsgInvalidLegacyTransaction, "non-canonical fields")
+	}
 
 	tx := &Transaction{
 		Nonce:    (*ethtypes.HexInteger)(rlpList[0].ToData().Int()),
@@ -310,15 +314,24 @@ func decodeEIP1559SignaturePayload(ctx context.Context, rawTx ethtypes.HexBytes0
 		log.L(ctx).Errorf("Invalid EIP-1559 transaction data '%s': %s", rawTx, err)
 		return nil, nil, i18n.NewError(ctx, signermsgs.MsgInvalidEIP1559Transaction, err)
 	}
-	rlpList := decoded.(rlp.List)
-
-	if len(rlpList) < rlpMinLen {
+	rlpList, isList := decoded.(rlp.List)
+	if !isList || len(rlpList) < rlpMinLen {
 		log.L(ctx).Errorf("Invalid EIP-1559 transaction data (%d RLP elements)", rlpList)
 		return nil, nil, i18n.NewError(ctx, signermsgs.MsgInvalidEIP1559Transaction, "EOF")
 	}
-	encodedChainID := rlpList[0].ToData().IntOrZero().Int64()
-	if encodedChainID != chainID {
-		return nil, nil, i18n.NewError(ctx, signermsgs.MsgInvalidChainID, chainID, encodedChainID)
+	encodedChainID := rlpList[0].ToData().IntOrZero()
+	if encodedChainID.Cmp(big.NewInt(chainID)) != 0 {
+		return nil, nil, i18n.NewError(ctx, signermsgs.MsgInvalidChainID, chainID, encodedChainID.Int64())
+	}
+	bytesFields := []int{7}
+	intFields := []int{0, 1, 2, 3, 4, 6}
+	if rlpMinLen >= 12 {
+		intFields = append(intFields, 9)
+		bytesFields = append(bytesFields, 10, 11)
+	}
+	if !validTxScalars(rlpList, intFields, 5, bytesFields) {
+		log.L(ctx).Errorf("Invalid EIP-1559 transaction data '%s': non-canonical fields", rawTx)
+		return nil, nil, i18n.NewError(ctx, signermsgs.MsgInvalidEIP1559Transaction, "non-canonical fields")
 	}
 	return rlpList, &Transaction{
 		Nonce:                (*ethtypes.HexInteger)(rlpList[1].ToData().Int()),
@@ -370,6 +383,25 @@ func RecoverRawTransaction(ctx context.Context, rawTx ethtypes.HexBytes0xPrefix,
 		return nil, nil, i18n.NewError(ctx, signermsgs.MsgUnsupportedTransactionType, txTypeByte)
 	}
 
+}
+
+// validTxScalars checks that the decoded fields are RLP strings (not lists), that integers are in canonical
+// form (no leading zero byte) and that the to address is empty or 20 bytes - so the transaction returned
+// from recovery re-encodes to exactly the payload that was signed, and no field access can panic.
+func validTxScalars(rlpList rlp.List, intFields []int, toField int, bytesFields []int) bool {
+	for _, i := range intFields {
+		d, isData := rlpList[i].(rlp.Data)
+		if !isData || (len(d) > 0 && d[0] == 0x00) {
+			return false
+		}
+	}
+	for _, i := range bytesFields {
+		if _, isData := rlpList[i].(rlp.Data); !isData {
+			return false
+		}
+	}
+	to, isData := rlpList[toField].(rlp.Data)
+	return isData && (len(to) == 0 || len(to) == 20)
 }
 
 func (t *Transaction) addSignature(rlpList rlp.List, sig *secp256k1.SignatureData) rlp.List {
